@@ -162,6 +162,8 @@ def cases(c):
                     'amp10': int(gen.pick(rng, [0, 0, 0, -3, -5, -6, 3, 5])), 'i': i})
         if i % 7 == 2 and not out[-1]['cplx']:
             out[-1].update(variant=gen.NARROW[(i // 7) % len(gen.NARROW)], amp10=0)     # wav / ADC samples
+        if not out[-1].get('amp10'):
+            gen.layout_variant(out[-1], i)
     return out
 
 
@@ -199,7 +201,7 @@ def run_case(c, d):
                 c.compare('lpc-equals-aryule', np.asarray(a_lpc), np.asarray(A), 1e-9 * max(1.0, (lam[-1] / lam[0]) ** 0.5),
                           dict(feats, fn='lpc'), scale=1 + float(np.max(np.abs(A))))
     # history: the same container, refilled in place, is a new input (the contract judges the call)
-    if d['cont'] == 'array' and np.asarray(x).dtype.kind in 'fc':
+    if d['cont'] == 'array' and np.asarray(x).dtype.kind in 'fc' and np.asarray(x).flags.writeable:
         x2 = gen.data({'kind': 'noise', 'N': d['N'], 'cplx': bool(d['cplx'])}, c.rng(d, 'x2'))
         x[:] = x2
         try:
